@@ -211,7 +211,8 @@ def bag_case():
         ormgen.harness_dao()
         from krrood.ormatic.dao import to_dao
 
-        pool = [M.Leaf(ctx.fresh_int("v0")), M.SubLeaf(ctx.fresh_int("v1"))]
+        backref = ctx.flag("backref")  # the first element refers back to the container that holds it (a cycle through the container)
+        pool = [(M.BackLeaf if backref else M.Leaf)(ctx.fresh_int("v0")), M.SubLeaf(ctx.fresh_int("v1"))]
         items = [pool[j] for j in LEAF_SEQS[ctx.choice("items", 5)]]
         kind = ctx.choice("bagclass", 3)
         if kind:
@@ -221,6 +222,8 @@ def bag_case():
             bag = M.LabeledBag(items, **kw) if kind == 1 else M.SealedBag(items, seal=ctx.fresh_int("seal"), **kw)
         else:
             bag = M.Bag(items)
+        if backref:
+            pool[0].home = bag
         fav = ctx.choice("favourite", 3) - 1
         others = [pool[j] for j in LEAF_SEQS[ctx.choice("others", 4)]]
         root = bag if ctx.flag("bag-is-root") else M.Holder(bag, pool[fav] if fav >= 0 else None, others)
@@ -240,6 +243,30 @@ def bag_case():
 
 def index_of_id(xs, o):
     return next((i for i, x in enumerate(xs) if x is o), -1)
+
+
+def car_case():
+    """two objects that refer to each other through one-to-one references that are not annotated Optional"""
+
+    def h(ctx):
+        ormgen.harness_dao()
+        from krrood.ormatic.dao import to_dao
+
+        c, e = M.Car(ctx.fresh_int("plate")), M.Engine(ctx.fresh_int("power"))
+        if ctx.flag("car-has-engine"):
+            c.engine = e
+        if ctx.flag("engine-has-car"):
+            e.car = c
+        root = c if ctx.flag("root-is-car") else e
+        back = to_dao(root).from_dao()
+        ctx.note("nonempty", 1)
+        r, terms = isomorphic(root, back)
+        v = {"same-structure-classes-and-aliasing": r is True}
+        if r is True:
+            v["equal-field-values"] = AND(terms) if terms else True
+        return v
+
+    return h
 
 
 def drawing_case():
@@ -323,6 +350,7 @@ def cases(tier, seed):
     cs.append(Case("two roots, one conversion state", two_roots_case(), validate=2))
     cs.append(Case("alternatively mapped container and its normally mapped subclasses", bag_case(), key="bag", validate=2, timeout=900))
     cs.append(Case("alternatively mapped subclass of a normally mapped class behind base-typed fields", drawing_case(), key="drawing", validate=2, timeout=900))
+    cs.append(Case("mutual one-to-one references that are not annotated Optional", car_case(), key="car", validate=2, timeout=600))
     cs.append(Case("objects that die while the conversion state lives", short_lived_case(3 if tier == "quick" else 4), key="short-lived", validate=0, timeout=900))
     return cs
 
